@@ -339,8 +339,12 @@ Section Quiet.
     - intros item1. apply T_ret. auto.
   Qed.
 
+  (* old_value is used only when no new value is given and replace is off *)
+  Definition mv_use_new (m : mv_args) : bool :=
+    negb (is_missing (mv_new m)) && negb match mv_new m with VEmpty => true | _ => false end.
   Definition mv_res (m : mv_args) (r : val) (h : heap_t) : Prop :=
-    r = mv_old m \/ r = mv_new m \/ loose h r.
+    (r = mv_old m /\ (mv_new m = VUnchanged \/ (mv_use_new m = false /\ mv_replace m = false))) \/
+    r = mv_new m \/ loose h r.
 
   Lemma mv_body_quiet rec m F :
     astable F -> mv_plain m ->
@@ -349,11 +353,12 @@ Section Quiet.
     intros SF (Hprep & Hattrs & Hxf & Hats & t & ety & Hctor & Pt & Hexp).
     destruct m as [old new repl prepare attrs ctor expd xf ats inpl].
     cbn [mv_prepare mv_attrs mv_transform mv_attr_transforms mv_ctor mv_expected] in *. subst.
-    unfold mutate_value_body, mv_res.
+    unfold mutate_value_body, mv_res, mv_use_new.
     cbn [mv_old mv_new mv_replace mv_prepare mv_attrs mv_ctor mv_expected mv_transform mv_attr_transforms mv_inplace].
     set (use_new := negb (is_missing new) && negb match new with VEmpty => true | _ => false end).
     set (value0 := if use_new then new else if repl then VMissing else old).
-    assert (V0 : forall h, value0 = old \/ value0 = new \/ loose h value0).
+    assert (V0 : forall h, (value0 = old /\ (new = VUnchanged \/ (use_new = false /\ repl = false))) \/
+                           value0 = new \/ loose h value0).
     { intro h. unfold value0. destruct use_new; auto. destruct repl; auto. right; right; exact I. }
     (* step 1: prepare *)
     eapply T_bind with (Q := fun value1 h => IF F h /\ (value1 = value0 \/ loose h value1)).
@@ -416,8 +421,8 @@ Section Quiet.
     T (IF F) (mutate_value ct rec m) (fun r h => IF F h /\ mv_res m r h) (IF F).
   Proof.
     intros SF Hm. pose proof (mv_body_quiet rec m F SF Hm) as B.
-    unfold mutate_value. destruct (mv_new m); try exact B.
-    apply T_ret. intros h H. split; auto. left. reflexivity.
+    unfold mutate_value. destruct (mv_new m) eqn:En; try exact B.
+    apply T_ret. intros h H. split; auto. left. split; auto.
   Qed.
 
   Lemma exec_mv_quiet fuel m F :
@@ -707,7 +712,7 @@ Section Lists.
           * eapply attr_mv_plain; eauto.
         + intros h [[I Fh] L]. split; auto.
         + intros r h [[Iv [Fh L]] R]. split; [split; auto|].
-          destruct R as [->|[->|R]]; [exact I|exact L|exact R].
+          destruct R as [[-> _]|[->|R]]; [exact I|exact L|exact R].
         + intros h [I [Fh _]]. split; auto.
       - intros v'. rewrite Ht. cbn [ty_is_collection ty_is_list orb].
         eapply coll_prepare_seq; eauto. }
